@@ -178,6 +178,7 @@ pub fn run_one(fam: &Family, verif_seed: u64, run_index: u64, choices: Choices, 
     h.wait_pump = Some(pump);
     h.on_block_wait = Some(on_block_wait);
     cmhost::install(h);
+    cmhost::abi::set_dispatch(crate::genpay::dispatch);
     install_world();
 
     // ---- swarm configuration
